@@ -10,7 +10,7 @@ xo.general._print.suppress = True
 
 ID = "C14"
 LEVEL = "exploration"
-N_QUICK, N_THOROUGH = 1600, 60000
+N_QUICK, N_THOROUGH = 4800, 200000
 T_QUICK, T_THOROUGH = 75, 1500
 FLOORS = {"graphs": 800, "builds": 150, "with_fieldless": 150, "cyclic": 100, "order_edges_checked": 5000,
           "guards_checked": 4000, "duplicate_roots": 100, "with_depends_on": 200, "kernels_built_and_called": 50}
@@ -55,7 +55,7 @@ def gen_graph(rng):
     for i in range(nmain):
         r = rng.random()
         cands = compound()
-        if r < 0.2 or not nodes:
+        if r < 0.15:
             cls = type(f"{pre}E{i}", (xo.Struct,), {})
             add("E", cls, [])
         elif r < 0.65:
@@ -101,7 +101,7 @@ def gen_graph(rng):
                 ms = rng.sample(cands, min(len(cands), rng.randint(1, 3)))
                 add("U", type(f"{pre}U{i}", (xo.UnionRef,), {"_reftypes": [m.cls for m in ms]}), ms)
             else:
-                add("E", type(f"{pre}E{i}", (xo.Struct,), {}), [])
+                add("A", type(f"{pre}A{i}", (SC["Int64"][4],), {}), [])
     return nodes
 
 
@@ -222,7 +222,7 @@ def run_case(w, rng):
             w.count("builds")
             if kern and root.kind == "A":
                 nm = f"{root.name}_len"
-                if nm in ctx().kernels and None not in root.cls._shape:
+                if nm in ctx().kernels and root.cls._size is not None:
                     obj = root.cls()
                     if int(ctx().kernels[nm](obj=obj)) != len(obj):
                         viol("built-accessor-wrong", nm)
